@@ -450,3 +450,79 @@ Proof.
     + intros x v' Hv. destruct (loop_sound c _ _ _ _ _ _ _ IDRES G ELoop x v' Hv) as [[]|X]. exact X.
     + exact (loop_carries c _ _ _ _ _ _ IDRES G ELoop).
 Qed.
+
+(* ---- lists of records: flattened(), update(), the constructor's records argument *)
+Definition image_of (ft : ftable) (r0 r : prec) : Prop :=
+  rkind r = rkind r0 /\ option_map qn_uri (rid r) = option_map qn_uri (rid r0) /\
+  (forall x v', In v' (attr_get x (rattrs r)) ->
+     exists p, In p (record_pairs r0) /\ qn_eqb x (fst p) = true /\ same_value (snd p) v') /\
+  (forall p, In p (record_pairs r0) ->
+     exists v2 w, same_value (snd p) v2 /\ In w (attr_get (fst p) (rattrs r)) /\
+                  (w = v2 \/ set_same v2 w = true \/ py_eq v2 w = true)).
+
+Lemma add_record_anon : forall par ft b r0 b' r,
+  InvU (bns b) -> rid r0 = None -> add_record par ft b r0 = (b', OK r) ->
+  rkind r = rkind r0 /\ rid r = None /\ brecs b' = (brecs b ++ [r])%list /\ InvU (bns b').
+Proof.
+  intros par ft b r0 b' r I E H. unfold add_record in H.
+  destruct (negb (formal_single r0)); [inversion H|]. rewrite E in H. cbn [option_map] in H.
+  unfold new_record in H. unfold new_prec in H.
+  destruct ((is_element (rkind r0) && true)%bool); [discriminate|].
+  pose proof (add_attributes_InvU (mkCtx par ft) (bns b) (mkRec (rkind r0) None [])
+                (formal_attr_args r0 ++ extra_attr_args r0)%list I) as IA.
+  destruct (add_attributes (mkCtx par ft) (bns b) (mkRec (rkind r0) None []) (formal_attr_args r0 ++ extra_attr_args r0)%list)
+    as [m2 r2|m2 r2 e|] eqn:EA; inversion H; subst.
+  destruct (add_attributes_key _ _ _ _ _ _ EA) as [K D]. cbn [rkind rid] in K, D.
+  split; [exact K|]. split; [exact D|]. unfold add_rec_to, with_ns. rewrite D. cbn [brecs bns]. split; [reflexivity | exact IA].
+Qed.
+
+Theorem add_record_image : forall par ft b r0 b' r,
+  InvU (bns b) -> (forall p, In p (record_pairs r0) -> good_pair ft p) ->
+  add_record par ft b r0 = (b', OK r) ->
+  image_of ft r0 r /\ brecs b' = (brecs b ++ [r])%list /\ InvU (bns b').
+Proof.
+  intros par ft b r0 b' r I G H.
+  destruct (add_record_conserves par ft b r0 b' r I G H) as [S C].
+  destruct (rid r0) as [q|] eqn:E.
+  - destruct (add_record_spec par ft b r0 q b' r I E H) as [K [U [A I']]].
+    split; [|split; assumption]. unfold image_of. rewrite E, U. cbn [option_map]. repeat split; assumption.
+  - destruct (add_record_anon par ft b r0 b' r I E H) as [K [U [A I']]].
+    split; [|split; assumption]. unfold image_of. rewrite E, U. cbn [option_map]. repeat split; assumption.
+Qed.
+
+Theorem add_records_images : forall par ft rs b b',
+  InvU (bns b) -> (forall r0, In r0 rs -> forall p, In p (record_pairs r0) -> good_pair ft p) ->
+  add_records par ft b rs = (b', OK tt) ->
+  exists rs', brecs b' = (brecs b ++ rs')%list /\ Forall2 (image_of ft) rs rs' /\ InvU (bns b').
+Proof.
+  induction rs as [|r0 rs IH]; intros b b' I G H; cbn [add_records] in H.
+  - inversion H; subst. exists []. rewrite app_nil_r. split; [reflexivity|]. split; [apply Forall2_nil | exact I].
+  - destruct (add_record par ft b r0) as [b1 [r|e|]] eqn:E; try discriminate.
+    destruct (add_record_image par ft b r0 b1 r I (G r0 (or_introl eq_refl)) E) as [IM [A I1]].
+    destruct (IH b1 b' I1 (fun x Hx => G x (or_intror Hx)) H) as [rs' [A' [F I']]].
+    exists (r :: rs'). split; [rewrite A', A, <- app_assoc; reflexivity|]. split; [constructor; assumption | exact I'].
+Qed.
+
+(* ---- flattened(): the records of the result are, in order, the images of the document's own records
+   followed by the records of its bundles *)
+From Prov Require Import Interp InterpProofs.
+
+Theorem flattened_images : forall w d dd h,
+  get_doc w d = Some dd -> dbundles dd <> [] ->
+  (forall r0, In r0 (brecs (dmain dd) ++ flat_map (fun kb => brecs (snd kb)) (dbundles dd))%list ->
+     forall p, In p (record_pairs r0) -> good_pair (wft w) p) ->
+  snd (step w (OFlattened d)) = RHandle h ->
+  exists nd, get_doc (fst (step w (OFlattened d))) h = Some nd /\ dbundles nd = [] /\
+    Forall2 (image_of (wft w))
+            (brecs (dmain dd) ++ flat_map (fun kb => brecs (snd kb)) (dbundles dd))%list
+            (brecs (dmain nd)).
+Proof.
+  intros w d dd h G NE GOOD. cbn [step]. rewrite G.
+  destruct (dbundles dd) as [|b0 bs] eqn:EB; [contradiction|].
+  destruct (add_records None (wft w) (bundle_init None) _) as [nb [[]|e|]] eqn:EA; cbn [fst snd]; intros H;
+    try discriminate.
+  inversion H; subst. exists (mkD nb []). split; [|split; [reflexivity|]].
+  - unfold get_doc; cbn [wdocs]. rewrite nth_error_app2 by Lia.lia. rewrite Nat.sub_diag. reflexivity.
+  - destruct (add_records_images None (wft w) _ (bundle_init None) nb InvU_init GOOD EA) as [rs' [A [F _]]].
+    cbn [dmain brecs bundle_init app] in *. rewrite A. exact F.
+Qed.
